@@ -79,6 +79,14 @@ POW2_AXIOMS = [
               patterns=[z3.MultiPattern(pow2(_i), pow2(_j))]),
     pow2(0) == 1, pow2(1) == 2, pow2(2) == 4, pow2(3) == 8,
 ]
+_x, _y, _a, _b = z3.Ints("x_ax y_ax a_ax b_ax")
+# Divisibility lemmas (Lean: lemmas/Pow2.lean mod_trans, mod_add); instantiated by E-matching on the shown patterns only.
+MOD_LEMMAS = [
+    z3.ForAll([_x, _a, _b], z3.Implies(z3.And(_a > 0, _b > 0, _x % _a == 0, _a % _b == 0), _x % _b == 0),
+              patterns=[z3.MultiPattern(_x % _a, _a % _b)]),
+    z3.ForAll([_x, _y, _b], z3.Implies(z3.And(_b > 0, _x % _b == 0, _y % _b == 0), (_x + _y) % _b == 0),
+              patterns=[z3.MultiPattern(_x % _b, _y % _b)]),
+]
 # ceil_log2 characterisation (amaranth.utils.ceil_log2: assumed dependency contract, characterised in Lean)
 CLOG2_AXIOMS = [
     z3.ForAll([_i], z3.Implies(_i >= 1, z3.And(clog2(_i) >= 0, pow2(clog2(_i)) >= _i,
@@ -149,6 +157,12 @@ class SymObj:
 class Raised:
     def __init__(self, exc):
         self.exc = exc
+
+
+class Spread:
+    """*x inside a tuple display where x is not a literal tuple: the elements of x, in order"""
+    def __init__(self, value):
+        self.value = value
 
 
 class Empty:
@@ -530,8 +544,20 @@ class Exec:
 
     def e_Tuple(self, e, p):
         out = []
-        for vals, q in self.eval_seq(e.elts, p):
-            out.append((vals, q) if isinstance(vals, Raised) else (Tup(vals), q))
+        elts = [x.value if isinstance(x, ast.Starred) else x for x in e.elts]
+        for vals, q in self.eval_seq(elts, p):
+            if isinstance(vals, Raised):
+                out.append((vals, q)); continue
+            flat = []
+            for x, v in zip(e.elts, vals):
+                if isinstance(x, ast.Starred):
+                    if isinstance(v, tuple):
+                        flat.extend(v)
+                    else:
+                        flat.append(Spread(v))
+                else:
+                    flat.append(v)
+            out.append((Tup(flat), q))
         return out
 
     def e_List(self, e, p):
@@ -698,10 +724,14 @@ class Exec:
                     c = a.tag == T_NONE
                 elif a is NONE:
                     c = z3.BoolVal(True)
+                elif hasattr(a, "is_none"):
+                    c = a.is_none
                 else:
                     c = z3.BoolVal(False)
             elif isinstance(a, SymObj) and isinstance(b, SymObj):
                 c = z3.BoolVal(a is b)
+            elif hasattr(a, "is_none") and b is NONE:
+                c = a.is_none
             else:
                 self.unsupported(node, "is")
             return c if isinstance(op, ast.Is) else z3.Not(c)
@@ -878,6 +908,9 @@ class Exec:
     def call(self, fname, e, recv, args, kwargs, q):
         # 1. explicit contracts by source text of the callee expression, then by (class, method) of the receiver
         h = self.contracts.get(fname)
+        if h is None and recv is not None and not isinstance(recv, SymObj) and isinstance(e.func, ast.Attribute) \
+                and getattr(recv, "cls", None):
+            h = self.contracts.get(f"{recv.cls}.{e.func.attr}")
         if h is None and isinstance(recv, SymObj) and isinstance(e.func, ast.Attribute):
             h = self.contracts.get(f"{recv.cls}.{e.func.attr}")
             if h is None and recv.model is not None and hasattr(recv.model, "call_" + e.func.attr):
